@@ -1,6 +1,6 @@
 import FlytModel.Generated.IR
 import FlytModel.Expected.IR
-/-! The translation of `NewResult` from the CURRENT source is, term for term, the IR the refinement theorems are about. -/
+/-! The translation of `NewResult` from the CURRENT source is, term for term, the expected IR. -/
 namespace Flyt.Tie
 theorem NewResult : Flyt.Generated.IR.NewResult = Flyt.Expected.IR.NewResult := rfl
 end Flyt.Tie
